@@ -218,4 +218,7 @@ class ListField(Field):
         """
         if self.field is None or isinstance(self.field, AnyField):
             return value
+        if isinstance(self.field, Field) and isinstance(value, (list, tuple)):
+            # undo the item field's on-disk encoding (the inverse of to_basic) before validating
+            value = [self.field.to_python(cfg, item) for item in value]
         return ListProxy(cfg, self, value)
